@@ -201,6 +201,7 @@ class Model:
         fn = dict(funcs or {})
         if hist is not None:
             fn['past'] = lambda name, tau: hist(t - tau)[f'{scope}/{name}']
+            fn['__varcall__'] = lambda name, when: hist(when)[f'{scope}/{name}']
         return evaluate(rhs, look, fn)
 
     def sources_of(self, p):
